@@ -2417,3 +2417,311 @@ def r9(cx):
 
 RS.rules.sort(key=lambda r: r.id)
 RS.explanation += ' (R9) in split_into every path from the entry to a return runs Ifs::ranges with the given Ifs over the given field, and every call that receives the output collection either consumes a value computed from that Ranges iterator or is dominated by a Some edge of a value obtained from it: the transducer proved in R1 is applied to every field that R6 sends to split_into, so no value of IFS or of the field bypasses splitting and empty-field removal.'
+
+
+# =====================================================================================
+# C01.R10 - the quoting context of a WordLexer is fixed at construction
+# =====================================================================================
+WORDLEXER = 'yash_syntax::parser::lex::core::WordLexer'
+
+
+def _r10_field_index(place, adt, field):
+    for i, e in enumerate(place.get('p') or []):
+        if isinstance(e, dict) and 'f' in e and e.get('adt') and Q.name_matches(e['adt'], adt) and e['f'] == field:
+            return i
+    return None
+
+
+def _r10_saved_read(body, du, operand, adt, field):
+    """If the operand is (a chain of single-definition copies of) a read of `.field` of `adt`, the (block, idx) of that read."""
+    for _ in range(12):
+        p = Q.operand_place(operand)
+        if p is None or p.get('p'):
+            return None
+        d = du.single_def(p['l'])
+        if d is None or d[1] == 't' or d[2]['k'] != 'assign' or d[2]['rv']['k'] != 'use':
+            return None
+        operand = d[2]['rv']['o']
+        q = Q.operand_place(operand)
+        if q is not None and q.get('p'):
+            i = _r10_field_index(q, adt, field)
+            if i is not None and i == len(q['p']) - 1:
+                return (d[0], d[1])
+            return None
+    return None
+
+
+@RS.rule('C01.R10', 'K-WRITERS', 'the quoting context of a WordLexer (text inside "..." / here-document vs word) is set where the WordLexer is '
+         'built; code that changes it on a WordLexer it only borrows puts the saved value back on every path to its return')
+def r10(cx):
+    F = cx.F
+    cx.require(WORDLEXER in F.adts, 'type %s not found' % WORDLEXER)
+    fields = [f.get('name') for v in F.adts[WORDLEXER].get('variants', []) for f in v.get('fields', [])]
+    cx.require('context' in fields, '%s has no field `context` (fields: %s)' % (WORDLEXER, fields))
+    nbuilt = 0
+    for fn in sorted(F.bodies):
+        body = F.bodies[fn]
+        aggs = Q.find_aggregates(body, WORDLEXER)
+        ws = Q.field_writes(body, WORDLEXER, 'context')
+        if not aggs and not ws:
+            continue
+        du = Q.DefUse(body)
+        if aggs and body.root.startswith('yash_syntax::'):
+            cx.fn(body.root)
+        for b, j, s in aggs:
+            nbuilt += 1
+            if body.root.startswith('yash_syntax::'):
+                cx.site('%s: builds a WordLexer at %s' % (body.fn, body.loc(s)))
+        if not ws:
+            continue
+        cx.fn(body.root)
+        sets, restores = [], []
+        for b, j, s, kind, f in ws:
+            place = s['lhs'] if kind == 'assign' else s['rv']['pl']
+            i = _r10_field_index(place, WORDLEXER, 'context')
+            if kind == 'borrow_mut' and i != len(place['p']) - 1:
+                continue                          # a borrow of something behind the field, not of the field
+            rp = du.deref_origin(place)
+            ri = _r10_field_index(rp, WORDLEXER, 'context')
+            borrowed = ri is None or '*' in (rp.get('p') or [])[:ri]
+            if not borrowed:
+                cx.site('%s: sets the context of a WordLexer it owns at %s' % (body.fn, body.loc(s)))
+                continue
+            saved = _r10_saved_read(body, du, s['rv']['o'], WORDLEXER, 'context') if (kind == 'assign' and s['rv']['k'] == 'use') else None
+            if saved is not None:
+                restores.append((b, j, s, saved))
+                cx.site('%s: puts a saved context back at %s' % (body.fn, body.loc(s)))
+            else:
+                sets.append((b, j, s, kind))
+                cx.site('%s: changes the context of a borrowed WordLexer at %s' % (body.fn, body.loc(s)))
+        for b, j, s, kind in sets:
+            # restores that count: the value they put back was read before this change
+            good = [r for r in restores if (r[3][0] == b and r[3][1] != 't' and r[3][1] < j) or (r[3][0] != b and body.dominates(r[3][0], b))]
+            if any(r[0] == b and r[1] > j for r in good):
+                continue
+            p = Q.must_pass(body, body.succ(b), {r[0] for r in good}) if body.succ(b) else [b]
+            if b in body.return_blocks():
+                p = [b]
+            if p is not None:
+                cx.violation(body.root, 'context-not-restored', 'the quoting context of the caller\'s WordLexer is %s and not put back on a '
+                             'path to the return: the same WordLexer lexes the rest of the enclosing double-quoted string / here-document, '
+                             'so what follows is lexed by the rules of the wrong context - `"${a#x}${b-\'q r\'}"` must keep the single '
+                             'quotes literally (POSIX XCU 2.2.3), and \\q inside "..." must keep its backslash; use a temporary WordLexer '
+                             'or restore the saved context on every exit' % ('overwritten' if kind == 'assign' else 'lent out mutably'),
+                             loc=body.loc(s), path=Q.render_path(body, [b] + p if p and p[0] != b else p))
+    cx.floor(nbuilt, 1, 'constructions of a WordLexer (where its context is chosen)')
+
+
+RS.rules.sort(key=lambda r: r.id)
+RS.explanation += ' (R10) WordLexer.context is chosen where a WordLexer is built; every assignment to (or mutable borrow of) that field through a reference, in any crate, is followed on every path to the return by an assignment of a value read from the field before the change, so a sub-lexer never leaves the lexer of the enclosing "..." / here-document in another quoting context.'
+
+
+# =====================================================================================
+# C01.R11 - double_quote evaluated on every shape of phrase, empty fields included
+# =====================================================================================
+DOUBLE_QUOTE = INIT + 'word::double_quote'
+_R11_NOOP = ('alloc::vec::Vec::<T, A>::reserve_exact', 'alloc::vec::Vec::<T, A>::reserve', 'alloc::vec::Vec::<T, A>::shrink_to_fit')
+
+
+def _r11_interp(F, module_prefix):
+    """An interpreter whose extern models the Vec / iterator methods a marking function may use and evaluates the private
+    functions of the same module; everything else fails closed."""
+    pos = {}          # id(list) -> next index, for `for x in vec`
+    holder = {}
+
+    def items(v):
+        if isinstance(v, tuple) and len(v) == 2 and v[0] == 'I':
+            return v[1]
+        if isinstance(v, list):
+            return v
+        raise Undecidable('not an iterator: %r' % (v,))
+
+    def apply(f, args):
+        it = holder['it']
+        if isinstance(f, tuple) and f and f[0] == 'C':
+            return it.call_closure(f, args)
+        if isinstance(f, tuple) and f and f[0] == 'FN':
+            return call_local(f[1], args)
+        raise Undecidable('not a callable: %r' % (f,))
+
+    def call_local(fn, args):
+        it = holder['it']
+        h = F.hir_of(fn)
+        env = {}
+        if len(h['params']) != len(args):
+            raise Undecidable('%s: arity' % fn)
+        for p_, a in zip(h['params'], args):
+            if p_.get('k') != 'bind' or p_.get('sub'):
+                raise Undecidable('%s: parameter pattern' % fn)
+            env[p_['id']] = a
+        try:
+            r = it.ev(h['body'], env)
+        except _Return as ret:
+            r = ret.v
+        for p_, a in zip(h['params'], args):
+            if env[p_['id']] is not a and isinstance(a, (list, tuple, MutStruct)):
+                raise Undecidable('%s replaces the value behind a parameter: not modelled for helpers' % fn)
+        return r
+
+    def extern(name, recv, args, node):
+        name = name or ''
+        decl = (node.get('decl') or '') if isinstance(node, dict) else ''
+        if name.startswith('path:'):
+            d = name[5:]
+            if d.startswith(module_prefix) and d in F.hir and str(F.hir[d].get('kind')) == 'Fn':
+                return ('FN', d)
+            raise Undecidable('path %s' % d)
+        if recv is None and name.startswith(module_prefix) and name in F.hir:
+            return call_local(name, args)
+        if name in _R11_NOOP:
+            return ('T', ())
+        if name == 'alloc::vec::Vec::<T, A>::insert' and isinstance(recv, list) and len(args) == 2 and isinstance(args[0], int) \
+                and 0 <= args[0] <= len(recv):
+            recv.insert(args[0], args[1])
+            return ('T', ())
+        if name in ('core::slice::<impl [T]>::iter_mut', 'core::slice::<impl [T]>::iter') and isinstance(recv, list):
+            return ('I', list(recv))
+        if decl == 'core::iter::traits::collect::IntoIterator::into_iter' and isinstance(recv, (list, tuple)):
+            return ('I', list(items(recv)))
+        if name == 'core::iter::traits::iterator::Iterator::next' or decl == 'core::iter::traits::iterator::Iterator::next':
+            seq = items(recv)
+            if isinstance(recv, list):
+                i = pos.get(id(recv), 0)
+                if i >= len(seq):
+                    pos.pop(id(recv), None)
+                    return V(NONE)
+                pos[id(recv)] = i + 1
+                return V(SOME, seq[i])
+            return V(SOME, seq.pop(0)) if seq else V(NONE)
+        if decl.startswith('core::iter::traits::iterator::Iterator::') and isinstance(recv, tuple) and recv and recv[0] == 'I':
+            m = decl.rsplit('::', 1)[1]
+            seq = recv[1]
+            if m == 'for_each' and len(args) == 1:
+                for x in seq:
+                    apply(args[0], [x])
+                return ('T', ())
+            if m in ('filter', 'skip_while', 'take_while') and len(args) == 1:
+                keep = []
+                for x in seq:
+                    r = apply(args[0], [x])
+                    if not isinstance(r, bool):
+                        raise Undecidable('predicate result %r' % (r,))
+                    keep.append(r)
+                if m == 'filter':
+                    return ('I', [x for x, k_ in zip(seq, keep) if k_])
+                n_ = next((i for i, k_ in enumerate(keep) if not k_), len(seq))
+                return ('I', seq[n_:] if m == 'skip_while' else seq[:n_])
+            if m in ('skip', 'take') and len(args) == 1 and isinstance(args[0], int):
+                return ('I', seq[args[0]:] if m == 'skip' else seq[:args[0]])
+            if m == 'rev':
+                return ('I', list(reversed(seq)))
+            if m == 'enumerate':
+                return ('I', [('T', (i, x)) for i, x in enumerate(seq)])
+            if m in ('all', 'any') and len(args) == 1:
+                rs = [apply(args[0], [x]) for x in seq]
+                return all(rs) if m == 'all' else any(rs)
+        raise Undecidable('double_quote: call of %s is not modelled' % (name or decl))
+
+    it = Interp(F, extern, fuel=20000)
+    holder['it'] = it
+    return it
+
+
+def _r11_char(value, origin, quoted, quoting):
+    return MutStruct(ATTRCHAR, {'value': value, 'origin': V(ORIGIN + '::' + origin), 'is_quoted': quoted, 'is_quoting': quoting})
+
+
+def _r11_fields(v):
+    """Normal form of a Phrase value: the list of its fields (Char(c) = one field of one character), or None."""
+    if is_variant(v, PHRASE + '::Char') and len(v[2]) == 1:
+        return [[v[2][0]]]
+    if is_variant(v, PHRASE + '::Field') and len(v[2]) == 1 and isinstance(v[2][0], list):
+        return [v[2][0]]
+    if is_variant(v, PHRASE + '::Full') and len(v[2]) == 1 and isinstance(v[2][0], list) and all(isinstance(f, list) for f in v[2][0]):
+        return v[2][0]
+    return None
+
+
+def _r11_show(fields):
+    if fields is None:
+        return 'not a phrase'
+    return '(' + ', '.join(_show_chars([freeze(c) for c in f]) for f in fields) + ')' if fields else '(no field)'
+
+
+@RS.rule('C01.R11', 'K-TABLE', 'double_quote evaluated on Char, Field and Full phrases of 0-3 fields, empty fields included: every field, '
+         'even an empty one, comes back as quoting mark, its characters quoted, quoting mark; the number of fields is unchanged')
+def r11(cx):
+    import itertools
+    F = cx.F
+    fn = DOUBLE_QUOTE
+    cx.fn(fn)
+    h = F.hir_of(fn)
+    cx.require(len(h['params']) == 1 and h['params'][0].get('k') == 'bind', '%s does not take one plain parameter' % fn)
+    pid = h['params'][0]['id']
+    cx.require(set(_variants(F, PHRASE)) == {'Char', 'Field', 'Full'}, 'Phrase has other shapes than Char, Field, Full: %s' % _variants(F, PHRASE))
+    protos = {
+        'empty': [],
+        'one': [('a', 'Literal', False, False)],
+        'mixed': [(' ', 'SoftExpansion', False, False), ('*', 'HardExpansion', False, False), ('\\', 'Literal', False, True),
+                  ('b', 'Literal', True, False)],
+    }
+
+    def mk(kind):
+        return [_r11_char(*c) for c in protos[kind]]
+
+    cases = [('Char(%r/%s)' % (c[0], c[1]), (lambda c=c: V(PHRASE + '::Char', _r11_char(*c)))) for c in protos['one'] + protos['mixed'][:2]]
+    cases += [('Field(%s)' % k_, (lambda k_=k_: V(PHRASE + '::Field', mk(k_)))) for k_ in ('empty', 'one', 'mixed')]
+    for n in range(4):
+        for combo in itertools.product(('empty', 'one', 'mixed'), repeat=n):
+            cases.append(('Full(%s)' % ','.join(combo), (lambda combo=combo: V(PHRASE + '::Full', [mk(k_) for k_ in combo]))))
+    failures = {}
+    for label, make in cases:
+        phrase = make()
+        before = [[freeze(c) for c in f] for f in _r11_fields(phrase)]
+        it = _r11_interp(F, INIT + 'word::')
+        env = {pid: phrase}
+        try:
+            it.ev(h['body'], env)
+        except _Return:
+            pass
+        got = _r11_fields(env[pid])
+        cx.cellcount(1)
+        bad = None
+        if got is None:
+            bad = 'the result is not a phrase'
+        elif len(got) != len(before):
+            bad = 'the phrase has %d field(s) afterwards instead of %d' % (len(got), len(before))
+        else:
+            for i, (g, bf) in enumerate(zip(got, before)):
+                g = [dict(freeze(c)[2]) if isinstance(c, MutStruct) else None for c in g]
+                if any(c is None for c in g):
+                    bad = 'field %d contains something that is not an AttrChar' % i
+                    break
+                mark = {'value': '"', 'origin': V(ORIGIN + '::Literal'), 'is_quoted': False, 'is_quoting': True}
+                if len(g) < 2 or g[0] != mark or g[-1] != mark:
+                    bad = 'field %d (%s) is not enclosed in the quoting characters `"`' % (i, 'empty' if not bf else '%d characters' % len(bf))
+                    break
+                inner = g[1:-1]
+                if len(inner) != len(bf):
+                    bad = 'field %d has %d characters between the marks instead of %d' % (i, len(inner), len(bf))
+                    break
+                for c, o in zip(inner, bf):
+                    o = dict(o[2])
+                    if (c['value'], c['origin'], c['is_quoting']) != (o['value'], o['origin'], o['is_quoting']) or \
+                            (not c['is_quoting'] and c['is_quoted'] is not True):
+                        bad = 'in field %d the character %r comes back as %s' % (i, o['value'], _show_chars([freeze(MutStruct(ATTRCHAR, c))]))
+                        break
+                if bad:
+                    break
+        if bad:
+            failures.setdefault(label.split('(')[0], []).append((label, bad, _r11_show(got)))
+    for shape, fs in sorted(failures.items()):
+        label, bad, shown = fs[0]
+        cx.violation(fn, 'shape:%s' % shape, 'double_quote(%s): %s; result %s (%d input(s) of shape %s fail: %s). Every field of a '
+                     'double-quoted expansion must be delimited by quoting marks and all its characters quoted: a field without marks is '
+                     'removed by field splitting when it is empty (`set -- a "" b; printf "[%%s]" "$@"` must print [a][][b], POSIX XCU '
+                     '2.5.2) and split / globbed when it is not'
+                     % (label, bad, shown, len(fs), shape, ' '.join(f[0] for f in fs[:6]) + (' ..' if len(fs) > 6 else '')), loc=_hloc(F, fn))
+
+RS.rules.sort(key=lambda r: r.id)
+RS.explanation += ' (R11) double_quote is evaluated (HIR interpreter, private helpers of its module evaluated in place) on Phrase::Char, Phrase::Field and Phrase::Full with every combination of 0-3 empty / one-character / mixed-attribute fields: the number of fields is unchanged and every field, empty ones included, comes back as quoting `"`, the same characters with is_quoted set, quoting `"`, so "$@" keeps one field per positional parameter.'
